@@ -73,15 +73,20 @@ impl<'a> CommitExtended<'a> for gix::Commit<'a> {
 
     fn message_ex(&self) -> Message {
         let commit_ref = self.decode().expect("commit can be decoded");
-        if let Ok(message) = commit_ref.message.to_str() {
-            Message::Str(message)
-        } else {
-            Message::Raw {
+        // Message bytes that happen to be valid UTF-8 still have to be decoded with the
+        // commit's declared (single-byte) encoding.
+        let declared_single_byte = commit_ref
+            .encoding
+            .and_then(|encoding| encoding_rs::Encoding::for_label(encoding))
+            .is_some_and(|encoding| encoding.is_single_byte());
+        match commit_ref.message.to_str() {
+            Ok(message) if !declared_single_byte => Message::Str(message),
+            _ => Message::Raw {
                 bytes: commit_ref.message,
                 encoding: commit_ref
                     .encoding
                     .and_then(|encoding| encoding.to_str().ok()),
-            }
+            },
         }
     }
 
